@@ -18,6 +18,7 @@ Section IncludesProofs.
   Context {path : Type} `{EqDecision path}.
   Variable canon : path -> option path.
   Variable is_dir : path -> bool.
+  Variable is_file : path -> bool.
   Variable read_dir : path -> option (list path).
   Variable join : path -> path -> path.
   Variable parent : path -> path.
@@ -31,23 +32,24 @@ Section IncludesProofs.
   Notation add_libraries := (add_libraries canon is_dir ext_circom).
   Notation add_files := (add_files canon is_dir read_dir join ext_circom).
   Notation new := (new canon is_dir read_dir join ext_circom).
-  Notation search_libraries := (search_libraries canon join file_name starts_dot has_sep).
-  Notation include_library := (include_library canon join file_name starts_dot has_sep).
-  Notation add_include := (add_include canon join file_name starts_dot has_sep).
+  Notation search_libraries := (search_libraries canon is_file join file_name starts_dot has_sep).
+  Notation include_library := (include_library canon is_file join file_name starts_dot has_sep).
+  Notation add_include := (add_include canon is_file join file_name starts_dot has_sep).
   Notation take_next := (take_next parent).
-  Notation add_includes := (add_includes canon join file_name starts_dot has_sep).
-  Notation parse_file := (parse_file canon join file_name starts_dot has_sep content).
-  Notation parse_loop := (parse_loop canon join parent file_name starts_dot has_sep content).
+  Notation add_includes := (add_includes canon is_file join file_name starts_dot has_sep).
+  Notation parse_file := (parse_file canon is_file join file_name starts_dot has_sep content).
+  Notation parse_loop := (parse_loop canon is_file join parent file_name starts_dot has_sep content).
   Notation parse_files :=
-    (parse_files canon is_dir read_dir join parent file_name ext_circom starts_dot has_sep content).
+    (parse_files canon is_dir is_file read_dir join parent file_name ext_circom starts_dot has_sep content).
 
   Notation canonical := (canonical canon).
   Notation expands := (expands canon is_dir read_dir join ext_circom).
-  Notation lib_offers := (lib_offers canon join file_name starts_dot has_sep).
-  Notation resolves := (resolves canon join parent file_name starts_dot has_sep).
+  Notation lib_offers := (lib_offers canon is_file join file_name starts_dot has_sep).
+  Notation resolves := (resolves canon is_file join parent file_name starts_dot has_sep).
   Notation named := (named canon is_dir read_dir join ext_circom).
-  Notation reachable := (reachable canon join parent file_name starts_dot has_sep content).
+  Notation reachable := (reachable canon is_file join parent file_name starts_dot has_sep content).
   Notation depth_le := (depth_le is_dir read_dir join).
+  Notation relative := (relative canon is_file join parent).
 
   (* ---------------------------------------------------------------- *)
   (* add_libraries, add_files, new                                    *)
@@ -79,13 +81,13 @@ Section IncludesProofs.
   Qed.
 
   (* the result of add_files: the old stack plus the expansions of the paths *)
-  Lemma add_files_spec fuel : forall paths acc r,
-    add_files fuel paths acc = Ok r ->
-    (forall c, c ∈ r.1 <-> c ∈ acc.1 \/ exists p, p ∈ paths /\ expands p c) /\
+  Lemma add_files_spec fuel : forall named paths acc r,
+    add_files fuel named paths acc = Ok r ->
+    (forall c, c ∈ r.1 <-> c ∈ acc.1 \/ exists p, p ∈ paths /\ expands named p c) /\
     (Forall canonical acc.1 -> Forall canonical r.1) /\
     (Forall only_os acc.2 -> Forall only_os r.2).
   Proof.
-    induction fuel as [|fuel IHf]; [discriminate|].
+    induction fuel as [|fuel IHf]; intros named; [discriminate|].
     induction paths as [|p rest IH]; intros acc r Hr; simpl in Hr.
     - inversion Hr; subst. split; [|done]. intros c; split; [auto|].
       intros [?|(p & Hp & _)]; [done|]. by apply elem_of_nil in Hp.
@@ -108,7 +110,7 @@ Section IncludesProofs.
           -- intros [?|(q & Hq & He)]; [auto|]. right. exists q; split; [by right|done].
           -- intros [?|(q & Hq & He)]; [auto|]. apply elem_of_cons in Hq as [->|Hq]; [|right; eauto].
              inversion He; subst; congruence.
-      + destruct (ext_circom p) eqn:Ee.
+      + destruct (named || ext_circom p) eqn:Ee.
         * destruct (canon p) as [c0|] eqn:Ec.
           -- apply IH in Hr as (Hr1 & Hr2 & Hr3). simpl in *. split; [|split; auto].
              ++ intros c. rewrite Hr1. rewrite elem_of_cons. split.
@@ -139,7 +141,7 @@ Section IncludesProofs.
     Forall lib_ok (libraries st) /\
     Forall canonical (stack st) /\
     Forall only_os reps /\
-    (forall c, c ∈ user_inputs st <-> exists p, p ∈ paths /\ expands p c).
+    (forall c, c ∈ user_inputs st <-> exists p, p ∈ paths /\ expands true p c).
   Proof.
     unfold Includes.new. destruct (add_libraries libs []) as [ls r0] eqn:El.
     intros Hn. apply bind_ok in Hn as (r & Ha & Hn). inversion Hn; subst; simpl.
@@ -179,7 +181,9 @@ Section IncludesProofs.
       + destruct (starts_dot inc) eqn:Es.
         * apply Hskip; [|done]. intros c' Ho. inversion Ho; subst; congruence.
         * destruct (canon (join (lib_path l) inc)) as [c|] eqn:Ec.
-          -- inversion Hr; subst. exists [], l, libs. repeat split; [constructor|]. by apply offers_dir.
+          -- destruct (is_file c) eqn:Ef.
+             ++ inversion Hr; subst. exists [], l, libs. repeat split; [constructor|]. by apply offers_dir.
+             ++ apply Hskip; [|done]. intros c' Ho. inversion Ho; subst; congruence.
           -- apply Hskip; [|done]. intros c' Ho. inversion Ho; subst; congruence.
       + destruct (has_sep inc) eqn:Es.
         * apply Hskip; [|done]. intros c' Ho. inversion Ho; subst; congruence.
@@ -195,7 +199,9 @@ Section IncludesProofs.
   Lemma resolves_canonical cur libs inc c :
     Forall lib_ok libs -> resolves cur libs inc (Some c) -> canonical c.
   Proof.
-    intros Hl Hr. inversion Hr; subst; [by eapply canon_idem|].
+    intros Hl Hr. inversion Hr as [c0 Hrel| |]; subst.
+    { unfold IncludesSpec.relative in Hrel. destruct (canon _) as [c1|] eqn:Ec; [|discriminate].
+      destruct (is_file c1); inversion Hrel; subst. by eapply canon_idem. }
     eapply lib_offers_canonical; [|done]. rewrite Forall_forall in Hl. apply Hl.
     apply elem_of_app; right; left.
   Qed.
@@ -231,10 +237,17 @@ Section IncludesProofs.
       end.
   Proof.
     unfold Includes.add_include. intros -> Ha.
-    destruct (canon (join (parent cur) (inc_path inc))) as [c|] eqn:Ec.
-    - exists (Some c). split; [by apply resolves_relative|].
+    assert (Hrel : relative cur (inc_path inc) =
+                   match canon (join (parent cur) (inc_path inc)) with
+                   | Some c => if is_file c then Some c else None | None => None end) by reflexivity.
+    destruct (relative cur (inc_path inc)) as [c|] eqn:Er.
+    - destruct (canon (join (parent cur) (inc_path inc))) as [c1|]; [|discriminate].
+      destruct (is_file c1); inversion Hrel; subst c1.
+      exists (Some c). split; [by apply resolves_relative|].
       destruct (decide (c ∈ black_paths st)); inversion Ha; subst; auto.
-    - unfold Includes.include_library in Ha. apply bind_ok in Ha as (r & Hs & Ha).
+    - assert (Ha' : include_library false st inc = Ok (st', rep)).
+      { destruct (canon (join (parent cur) (inc_path inc))) as [c1|]; [|done]. by destruct (is_file c1). }
+      clear Ha Hrel. rename Ha' into Ha. unfold Includes.include_library in Ha. apply bind_ok in Ha as (r & Hs & Ha).
       apply search_libraries_spec in Hs. destruct r as [c|]; inversion Ha; subst.
       + destruct Hs as (l1 & l & l2 & E & Hf & Ho). exists (Some c). split; [by eapply resolves_library|auto].
       + exists None. split; [by apply resolves_nowhere|done].
@@ -357,13 +370,15 @@ Section IncludesProofs.
     Proof.
       assert (S : forall inc libs, search_libraries d inc libs <> OutOfFuel).
       { intros inc. induction libs as [|l libs IH]; simpl; [done|].
-        destruct (lib_dir l); [destruct (starts_dot inc); [done|]; by destruct (canon _)|].
+        destruct (lib_dir l); [destruct (starts_dot inc); [done|]; destruct (canon _) as [c|]; [|done]; by destruct (is_file c)|].
         destruct (has_sep inc); [done|]. destruct (file_name _); [|done]. by destruct (decide _). }
       assert (A : forall st inc, add_include d st inc <> OutOfFuel).
       { intros st inc. unfold Includes.add_include. destruct (current_location st); [|done].
-        destruct (canon _); [done|]. unfold Includes.include_library.
-        destruct (search_libraries d (inc_path inc) (libraries st)) as [[?|]| | |] eqn:E; simpl; try done.
-        by apply S in E. }
+        assert (L : include_library d st inc <> OutOfFuel).
+        { unfold Includes.include_library.
+          destruct (search_libraries d (inc_path inc) (libraries st)) as [[?|]| | |] eqn:E; simpl; try done.
+          by apply S in E. }
+        destruct (canon _) as [c|]; [|done]. by destruct (is_file c). }
       assert (B : forall incs st ws, add_includes d st incs ws <> OutOfFuel).
       { induction incs as [|inc incs IH]; intros st ws; simpl; [done|].
         destruct (add_include d st inc) eqn:E; simpl; try done. by apply A in E. }
@@ -647,37 +662,37 @@ Section IncludesProofs.
   (* C19: termination.  Directory expansion needs fuel above the nesting depth
      of the named directories; the loop needs fuel above the number of
      canonical paths. *)
-  Lemma add_files_unfold fuel p rest acc :
-    add_files (S fuel) (p :: rest) acc =
+  Lemma add_files_unfold fuel named p rest acc :
+    add_files (S fuel) named (p :: rest) acc =
     if is_dir p then
       match read_dir p with
-      | Some names => Base.bind (add_files fuel (map (join p) names) acc) (fun acc' => add_files (S fuel) rest acc')
-      | None => add_files (S fuel) rest acc
+      | Some names => Base.bind (add_files fuel false (map (join p) names) acc) (fun acc' => add_files (S fuel) named rest acc')
+      | None => add_files (S fuel) named rest acc
       end
-    else if ext_circom p then
+    else if named || ext_circom p then
       match canon p with
-      | Some c => add_files (S fuel) rest (c :: acc.1, acc.2)
-      | None => add_files (S fuel) rest (acc.1, acc.2 ++ [FileOsError p])
+      | Some c => add_files (S fuel) named rest (c :: acc.1, acc.2)
+      | None => add_files (S fuel) named rest (acc.1, acc.2 ++ [FileOsError p])
       end
-    else add_files (S fuel) rest acc.
+    else add_files (S fuel) named rest acc.
   Proof. reflexivity. Qed.
 
-  Lemma add_files_fuel k : forall paths acc,
-    Forall (depth_le k) paths -> add_files (S k) paths acc <> OutOfFuel.
+  Lemma add_files_fuel k : forall named paths acc,
+    Forall (depth_le k) paths -> add_files (S k) named paths acc <> OutOfFuel.
   Proof.
-    induction k as [|k IHk]; induction paths as [|p rest IH]; intros acc Hd; try done;
+    induction k as [|k IHk]; intros named; induction paths as [|p rest IH]; intros acc Hd; try done;
       inversion Hd as [|? ? Hp Hrest]; subst; rewrite add_files_unfold.
     - destruct (is_dir p) eqn:Ed.
       + destruct (read_dir p) eqn:Er; [|by apply IH]. inversion Hp; congruence.
-      + destruct (ext_circom p); [|by apply IH]. destruct (canon p); by apply IH.
+      + destruct (named || ext_circom p); [|by apply IH]. destruct (canon p); by apply IH.
     - destruct (is_dir p) eqn:Ed.
       + destruct (read_dir p) as [names|] eqn:Er; [|by apply IH].
-        destruct (add_files (S k) (map (join p) names) acc) as [acc'| | |] eqn:Ea; try done.
+        destruct (add_files (S k) false (map (join p) names) acc) as [acc'| | |] eqn:Ea; try done.
         * by apply IH.
         * exfalso. revert Ea. apply IHk. inversion Hp; subst; try congruence.
           match goal with H : read_dir p = Some _ |- _ => rewrite Er in H; inversion H; subst end.
           apply Forall_forall. intros x Hx. apply elem_of_list_fmap in Hx as (n & -> & Hn). auto.
-      + destruct (ext_circom p); [|by apply IH]. destruct (canon p); by apply IH.
+      + destruct (named || ext_circom p); [|by apply IH]. destruct (canon p); by apply IH.
   Qed.
 
   Lemma include_terminates universe k fuel paths libs :
@@ -692,7 +707,7 @@ Section IncludesProofs.
       apply (parse_loop_fuel (add_libraries libs []).1 (user_inputs st0)) with (universe := universe);
         [by rewrite <- N4|done|by eapply initial_inv|simpl; lia].
     - unfold Includes.new in Hn. destruct (add_libraries libs []) as [ls r0].
-      destruct (add_files (S k) paths ([], r0)) eqn:Ea; simpl in Hn; try discriminate.
+      destruct (add_files (S k) true paths ([], r0)) eqn:Ea; simpl in Hn; try discriminate.
       by apply add_files_fuel in Ea.
   Qed.
 
@@ -705,27 +720,26 @@ Section IncludesProofs.
   Qed.
 
   (* ---------------------------------------------------------------- *)
-  (* known finding C19-include-unreadable                             *)
+  (* every include statement is served                                *)
   (* ---------------------------------------------------------------- *)
 
-  (* every include statement of a parsed file is served: it leads to a file
-     that is read and readable, or it is reported at the statement *)
+  (* every include statement of a parsed file either resolves to a FILE, which
+     is then read, or is reported at the statement (before the repair recorded
+     as C19-include-unreadable a directory of that name was pushed and the
+     only report was an OS error without location) *)
   Definition include_served (libs : list library) (s : parse_state (path:=path)) (f p : path) (a b : nat) : Prop :=
-    (exists c, resolves f libs p (Some c) /\ c ∈ ps_read s /\ content c <> Unreadable) \/
+    (exists c, resolves f libs p (Some c) /\ c ∈ ps_read s) \/
     (resolves f libs p None /\
      exists i u, ps_files s !! i = Some (f, u) /\ IncludeError p (Some i) a b ∈ ps_reports s).
-
-  (* the narrow class in which that fails: the include resolves to something
-     that exists but cannot be read as a file (a directory, typically) *)
-  Definition KF_include_unreadable (libs : list library) (f p : path) : Prop :=
-    exists c, resolves f libs p (Some c) /\ content c = Unreadable.
 
   Lemma lib_offers_dec inc l : (exists c, lib_offers inc l c) \/ (forall c, ~ lib_offers inc l c).
   Proof.
     destruct (lib_dir l) eqn:Ed.
     - destruct (starts_dot inc) eqn:Es; [right; intros c Ho; inversion Ho; congruence|].
       destruct (canon (join (lib_path l) inc)) as [c|] eqn:Ec.
-      + left. exists c. by apply offers_dir.
+      + destruct (is_file c) eqn:Ef.
+        * left. exists c. by apply offers_dir.
+        * right; intros c' Ho; inversion Ho; congruence.
       + right; intros c Ho; inversion Ho; congruence.
     - destruct (has_sep inc) eqn:Es; [right; intros c Ho; inversion Ho; congruence|].
       destruct (file_name (lib_path l)) as [n|] eqn:En; [|right; intros c Ho; inversion Ho; congruence].
@@ -736,7 +750,7 @@ Section IncludesProofs.
 
   Lemma resolves_total cur libs inc : exists r, resolves cur libs inc r.
   Proof.
-    destruct (canon (join (parent cur) inc)) as [c|] eqn:Ec; [exists (Some c); by apply resolves_relative|].
+    destruct (relative cur inc) as [c|] eqn:Ec; [exists (Some c); by apply resolves_relative|].
     assert (G : (exists l1 l l2 c, libs = l1 ++ l :: l2 /\ Forall (no_offer inc) l1 /\ lib_offers inc l c) \/
                 Forall (no_offer inc) libs).
     { induction libs as [|l libs IH]; [right; constructor|].
@@ -750,19 +764,28 @@ Section IncludesProofs.
     - exists None. by apply resolves_nowhere.
   Qed.
 
+  (* an included path is a file *)
+  Lemma resolves_is_file cur libs inc c :
+    Forall (fun l => lib_dir l = false -> is_file (lib_path l) = true) libs ->
+    resolves cur libs inc (Some c) -> is_file c = true.
+  Proof.
+    intros Hl Hr. inversion Hr as [c0 Hrel|l1 l l2 c0 _ -> _ Ho|]; subst.
+    - unfold IncludesSpec.relative in Hrel. destruct (canon _) as [c1|]; [|discriminate].
+      destruct (is_file c1) eqn:E; inversion Hrel; by subst.
+    - inversion Ho; subst; [done|]. rewrite Forall_forall in Hl. apply Hl; [|done]. apply elem_of_app; right; left.
+  Qed.
+
   Lemma every_include_served dfuel fuel paths libs s f incs p a b :
     parse_files false dfuel fuel paths libs = Ok s ->
     f ∈ ps_read s -> content f = Parsed incs -> (p, a, b) ∈ incs ->
-    ~ KF_include_unreadable (add_libraries libs []).1 f p ->
     include_served (add_libraries libs []).1 s f p a b.
   Proof.
-    intros Hp Hf Hc Hx Hkf.
+    intros Hp Hf Hc Hx.
     destruct (resolves_total f (add_libraries libs []).1 p) as [[c|] Hr].
-    - left. exists c. split; [done|]. split.
-      + apply (reads_exactly_reachable _ _ _ _ _ Hp).
-        eapply (reach_include _ _ _ _ _ _ _ _ _ f incs (p, a, b)); [|done|done|done].
-        by apply (reads_exactly_reachable _ _ _ _ _ Hp).
-      + intros Hu. apply Hkf. by exists c.
+    - left. exists c. split; [done|].
+      apply (reads_exactly_reachable _ _ _ _ _ Hp).
+      eapply (reach_include _ _ _ _ _ _ _ _ _ _ f incs (p, a, b)); [|done|done|done].
+      by apply (reads_exactly_reachable _ _ _ _ _ Hp).
     - right. split; [done|]. by eapply (proj2 (unresolved_include_error_located _ _ _ _ _ Hp)).
   Qed.
 End IncludesProofs.
@@ -785,6 +808,7 @@ Definition d23_fs : fs_data := FsData
     (str "/r/lib", Some (str "/r/lib"));
     (str "/r/lib/x.circom", Some (str "/r/lib/x.circom")) ]
   [ (str "lib", [str "x.circom"]) ]
+  [ str "/r/p/main.circom"; str "/r/lib/x.circom" ]
   [ (str "/r/p/main.circom", Parsed [(str "x.circom", 21, 40); (str "../lib/x.circom", 41, 67)]);
     (str "/r/lib/x.circom", Parsed []);
     (str "lib/x.circom", Parsed []) ].
@@ -853,9 +877,10 @@ Proof.
 Qed.
 
 (* ------------------------------------------------------------------------ *)
-(* known finding C19-include-unreadable: `include "sub";` where sub is a     *)
-(* directory next to the including file.  The directory is pushed, reading   *)
-(* it fails, and the only report is an OS error without a location.          *)
+(* C19-include-unreadable (repaired): `include "sub";` where sub is a        *)
+(* directory next to the including file.  The directory is no longer pushed; *)
+(* the resolution goes on through the libraries and ends in the include      *)
+(* error located at the statement.                                           *)
 (* ------------------------------------------------------------------------ *)
 
 Definition kf_dir_fs : fs_data := FsData
@@ -863,29 +888,13 @@ Definition kf_dir_fs : fs_data := FsData
     (str "/r/q/sub", Some (str "/r/q/sub"));
     (str "/r/q/main.circom", Some (str "/r/q/main.circom")) ]
   [ ]
+  [ str "/r/q/main.circom" ]
   [ (str "/r/q/main.circom", Parsed [(str "sub", 21, 35)]);
     (str "/r/q/sub", Unreadable) ].
 
-Definition served_d (d : fs_data) (libs : list (library (path:=spath))) :=
-  include_served (d_canon d) s_join s_parent s_file_name s_starts_dot s_has_sep (d_content d) libs.
-Definition KF_d (d : fs_data) (libs : list (library (path:=spath))) :=
-  KF_include_unreadable (d_canon d) s_join s_parent s_file_name s_starts_dot s_has_sep (d_content d) libs.
-
-Lemma kf_dir_include_not_served :
+Lemma dir_include_is_located :
   canon_idempotent_b kf_dir_fs = true /\
   exists s, run_project false kf_dir_fs [str "q/main.circom"] [] = Ok s /\
-            str "/r/q/main.circom" ∈ ps_read s /\
-            ps_reports s = [FileOsError (str "/r/q/sub")] /\
-            KF_d kf_dir_fs [] (str "/r/q/main.circom") (str "sub") /\
-            ~ served_d kf_dir_fs [] s (str "/r/q/main.circom") (str "sub") 21 35.
-Proof.
-  split; [vm_compute; reflexivity|]. eexists. split; [vm_compute; reflexivity|].
-  assert (R : resolves (d_canon kf_dir_fs) s_join s_parent s_file_name s_starts_dot s_has_sep
-                       (str "/r/q/main.circom") [] (str "sub") (Some (str "/r/q/sub"))).
-  { apply resolves_relative. vm_compute. reflexivity. }
-  split; [left|]. split; [reflexivity|]. split.
-  - exists (str "/r/q/sub"). split; [exact R|]. vm_compute. reflexivity.
-  - intros [(c & Hr & _ & Hc)|(Hr & _)].
-    + pose proof (resolves_fun _ (fun _ => false) (fun _ => None) _ _ _ (fun _ => false) _ _ (fun _ => Unreadable) _ _ _ _ _ R Hr) as E. inversion E; subst c. apply Hc. vm_compute. reflexivity.
-    + pose proof (resolves_fun _ (fun _ => false) (fun _ => None) _ _ _ (fun _ => false) _ _ (fun _ => Unreadable) _ _ _ _ _ R Hr) as E. discriminate.
-Qed.
+            ps_read s = [str "/r/q/main.circom"] /\
+            ps_reports s = [IncludeError (str "sub") (Some 0) 21 35].
+Proof. split; [vm_compute; reflexivity|]. eexists. split; [vm_compute; reflexivity|]. split; reflexivity. Qed.
